@@ -791,6 +791,44 @@ theorem C08_resume_in_place (rc : RCfg) (cfg : Cfg)
     ⟨⟨Or.inl (by simpa [RCfg.inPlace] using h1), Or.inl (by simpa [RCfg.inPlace] using h2)⟩,
      Or.inl (by simpa [RCfg.inPlace] using h3), hA, hA0⟩)
 
+/-- whatever fails, whenever, whoever is running at that moment (inside a run of the outermost graph, a child run
+or pulled by hand while its parent is idle, a node run while the graph is being assembled): every recovery file
+is written by a parent-most node — nothing is ever written below the outermost graph -/
+theorem C08_recovery_only_at_roots (f : Forest) (depth : Nat → Nat) (hr : f.Ranked depth) (fuel : Nat)
+    (nodes : List Nat) (evs : List FailEv) (hfuel : ∀ n ∈ nodes, depth n ≤ fuel) :
+    ∀ n ∈ f.recoveryFilesEv fuel nodes evs, f.parent n = none := by
+  intro n hn
+  simp only [Forest.recoveryFilesEv, List.mem_filter, Bool.and_eq_true, Forest.writesRecovery, beq_iff_eq] at hn
+  obtain ⟨hmem, _, _, hroot⟩ := hn
+  exact (f.root_eq_self_iff depth hr fuel n (hfuel n hmem)).mp hroot
+
+/-- a child that raises while its parent is idle fails alone and writes nothing -/
+theorem C08_idle_parent_no_file (f : Forest) (depth : Nat → Nat) (hr : f.Ranked depth) (fuel : Nat)
+    (nodes : List Nat) (k p : Nat) (running : Nat → Bool) (hfuel : ∀ n ∈ nodes, depth n ≤ fuel)
+    (hp : f.parent k = some p) (hidle : running p = false) :
+    f.recoveryFilesEv fuel nodes [⟨k, running⟩] = [] := by
+  apply List.filter_eq_nil_iff.mpr
+  intro n hn hc
+  simp only [List.any_cons, List.any_nil, Bool.or_false, Bool.and_eq_true, Forest.writesRecovery, beq_iff_eq] at hc
+  obtain ⟨hch, _, hroot⟩ := hc
+  have hpn := (f.root_eq_self_iff depth hr fuel n (hfuel n hn)).mp hroot
+  have hnk : n = k := by
+    cases fuel with
+    | zero => simpa [Forest.chainR] using hch
+    | succ fuel => simpa [Forest.chainR, hp, hidle] using hch
+  subst hnk
+  rw [hp] at hpn; cases hpn
+
+/-- the seeded variant `not parent_is_running`: the same event leaves a file in the child's directory -/
+theorem C08_parent_idle_variant_witness :
+    exForest.recoveryFilesPR 3 [0, 1, 2, 3, 4, 5] [⟨3, fun _ => false⟩] = [3] ∧
+    exForest.recoveryFilesEv 3 [0, 1, 2, 3, 4, 5] [⟨3, fun _ => false⟩] = [] ∧
+    -- … and a node run while its for-loop / macro is being assembled inside a run of the root (`5` raises, its parent `4`
+    -- is not running yet, then `4` raises with `2` and `0` running): variant two files, the code one — the root's
+    exForest.recoveryFilesPR 3 [0, 1, 2, 3, 4, 5] [⟨5, fun i => i == 0 || i == 2⟩, ⟨4, fun i => i == 0 || i == 2⟩] = [0, 5] ∧
+    exForest.recoveryFilesEv 3 [0, 1, 2, 3, 4, 5] [⟨5, fun i => i == 0 || i == 2⟩, ⟨4, fun i => i == 0 || i == 2⟩] = [0] := by
+  decide +kernel
+
 /-- a checkpoint of any child, however deep, goes to the root's directory as well -/
 theorem C08_checkpoint_at_root (f : Forest) (depth : Nat → Nat) (hr : f.Ranked depth) (fuel c : Nat)
     (hc : depth c ≤ fuel) :
@@ -997,5 +1035,8 @@ end PwVerif.C08
 #print axioms PwVerif.C08.C08_recovery_files_raising
 #print axioms PwVerif.C08.C08_suppressed_no_file
 #print axioms PwVerif.C08.C08_resume_in_place
+#print axioms PwVerif.C08.C08_recovery_only_at_roots
+#print axioms PwVerif.C08.C08_idle_parent_no_file
+#print axioms PwVerif.C08.C08_parent_idle_variant_witness
 #print axioms PwVerif.C08.C08_recovery_root_only
 #print axioms PwVerif.C08.C08_checkpoint_at_root
